@@ -341,7 +341,7 @@ class Ops(object):
             return self.seq_method(it, obj, name)
         if isinstance(obj, SMap):
             return self.map_method(it, obj, name)
-        if isinstance(obj, (SVal, SKey, SInt, SBool, SView)):
+        if isinstance(obj, Sym) or type(obj).__name__ in ('MatchObj', 'Poison', 'ParsedDT', 'Conv'):
             h = w.hooks.get('val_getattr')
             if h is not None:
                 r = h(it, obj, name)
@@ -387,7 +387,7 @@ class Ops(object):
             if not ok:
                 it.raise_('KeyError', key)
             return v
-        if isinstance(obj, (SVal, SKey)):
+        if isinstance(obj, Sym):
             h = self.world.hooks.get('val_getitem')
             if h is not None:
                 return h(it, obj, key)
@@ -879,11 +879,11 @@ class Ops(object):
             return it.wrap(self.seq_contains(it, container, x))
         if isinstance(container, SMap):
             return it.wrap(z3.Select(container.dom, it.as_term(x, container.ksort)))
-        if isinstance(container, (SVal, SKey)):
+        if isinstance(container, Sym):
             h = self.world.hooks.get('val_contains')
             if h is not None:
                 return h(it, container, x)
-            raise OutOfSubset('in on opaque value')
+            raise OutOfSubset('in on %r' % (container,))
         if isinstance(container, (list, tuple, set, frozenset, dict)):
             if not has_sym(x) and not has_sym(list(container)):
                 try:
